@@ -444,6 +444,33 @@ def correspondence(ctx):
                 ctx.oracle_fail(r[1], {"case": case.name})
             else:
                 ctx.distinct.add(("lib", case.name))
+    # one assembly module visiting designs of different dtype (real, complex, integer-valued float): buffers or flags that
+    # remember the dtype of the first design must not matter
+    for _ in range(6 if ctx.quick else 40):
+        case = zoo.gen_assembly(nprng)
+        m0, s0 = case.make()
+        xb = np.real(np.asarray(s0[0].state)).astype(float)
+        pts = []
+        for kdt in nprng.permutation(["real", "cplx", "ones", "cplx"]):
+            v = nprng.uniform(0.1, 1.0, xb.shape)
+            pts.append([v if kdt == "real" else (v + 1j * nprng.uniform(-0.5, 0.5, xb.shape)) if kdt == "cplx" else np.ones_like(xb)])
+        case.name += ".dtypechange"
+        base_make = case.make
+
+        def make(base_make=base_make, first=pts[0][0]):
+            mm, ss = base_make()
+            ss[0].state = zoo.vcopy(first)
+            return mm, ss
+        case.make = make
+        r = call_impl(history_oracle, case, nprng, int(nprng.integers(6, 14)), 1e-6, pts)
+        ctx.evaluations += 1
+        ctx.branch("lib.assembly-dtypechange")
+        if r[0] == "err":
+            ctx.oracle_fail(f"{case.name}: history raised {r[2][:300]}", {"case": case.name})
+        elif r[1]:
+            ctx.oracle_fail(r[1], {"case": case.name})
+        else:
+            ctx.distinct.add(("lib", case.name))
     for k in range(4 if ctx.quick else 24):
         case = gen_network(nprng, ["nested_late", "flat", "nested", "nested_late"][k % 4])
         r = call_impl(history_oracle, case, nprng, int(nprng.integers(6, 16)), 1e-6)
